@@ -173,3 +173,11 @@ Definition names_ok_shipped (lines : list string) (tt : list EngineSM.row) (stru
   | Some (_, t) => in_grammar07 t && names_ok t (elements_of (table_of tt) structs protos msgs)
   | None => false
   end.
+
+(* the same for Test.TEMPLATEStateMachine.cs (C07_wf_out_Test_TEMPLATEStateMachine_cs), with the user-tag assignment a *)
+Definition names_ok_shipped_cs (lines : list string) (tt : list EngineSM.row) (structs protos msgs : list string) (a : list (string * string)) : bool :=
+  match shipped16 dict0 lines with
+  | Some (_, t) => let e := with_user a (elements_of (table_of tt) structs protos msgs) in
+                   in_grammar07 t && names_ok t e && hooks_free e && user_lines_plain e t
+  | None => false
+  end.
